@@ -75,12 +75,19 @@ Qed.
 Definition sendstage (p : pc) : bool :=
   match p with S_done _ | S_pollerr _ _ | S_select _ _ | C_store => true | _ => false end.
 
+Definition oldclose (p : pc) : bool :=
+  match p with C_closed | C_store | C_cancel => true | _ => false end.
+Definition is_cstore (p : pc) : bool := match p with C_store => true | _ => false end.
+Definition rep_eof (p : pc) : bool := match p with R_repoll e => (e =? 1)%N | _ => false end.
+(* configurations in which end-of-stream is final: the re-poll, and with the new Close also the barrier *)
+Definition eof_safe (c : cfg) : bool := fix_repoll c && (negb (fix_close c) || fix_barrier c).
+
 Definition TInv (s : sh) (t : thread) : Prop :=
   match tpc t with
   | R_pollerr g | R_select g | S_pollerr _ g | S_select _ g => g <= cur s
   | R_err | S_err => derr s <> 0%N
   | R_repoll e => (e = 1%N -> closed s = true) /\ e <> 0%N
-  | C_cancel | D_recancel => closed s = true
+  | C_cancel | D_recancel | R_barrier | C2_cancel | C2_wait => closed s = true
   | K_cancel e => (3 <= e)%N
   | _ => True
   end /\ forallb wf_op (prog t) = true.
@@ -98,7 +105,7 @@ Definition RInv (s : sh) (t : thread) : Prop := Forall (ret_ok s) (rets t).
 Definition is_nilclose (kr : opk * ret) : bool :=
   match kr with (KClose, RErr e) => (e =? 0)%N | _ => false end.
 Definition nclose (t : thread) : nat := length (filter is_nilclose (rets t)).
-Definition is_ccancel (p : pc) : bool := match p with C_cancel => true | _ => false end.
+Definition is_ccancel (p : pc) : bool := match p with C_cancel | C2_cancel | C2_wait => true | _ => false end.
 Definition phi (t : thread) : nat := nclose t + b2n (is_ccancel (tpc t)).
 Fixpoint sumf (f : thread -> nat) (l : list thread) : nat :=
   match l with [] => 0 | t :: r => f t + sumf f r end.
@@ -115,16 +122,22 @@ Record Inv (c : cfg) (x : st) : Prop := {
   iA : sent (shd x) = map snd (taken (shd x)) ++ buf (shd x);
   iB : length (buf (shd x)) <= cap (shd x);
   iC : cnt lock_pc (ths x) = match mu (shd x) with Some _ => 1 | None => 0 end;
-  iD : closed (shd x) = true -> cnt sendstage (ths x) = 0;
+  iD : fix_close c = false -> closed (shd x) = true -> cnt sendstage (ths x) = 0;
   iE : derr (shd x) = 1%N -> closed (shd x) = true;
   iF : (0 < cur (shd x) \/ cur_closed (shd x) = true) -> derr (shd x) <> 0%N;
-  iG : fix_repoll c = true -> eof_seen (shd x) = true -> closed (shd x) = true /\ buf (shd x) = [];
+  iG : eof_safe c = true -> eof_seen (shd x) = true -> closed (shd x) = true /\ buf (shd x) = [];
   iH : Forall (TInv (shd x)) (ths x);
   iI : fix_recheck c = true -> closed (shd x) = true -> cur_closed (shd x) = false ->
        1 <= cnt helper_pc (ths x);
   iJ : forall i t, nth_error (ths x) i = Some t -> items (rets t) = taken_by i (taken (shd x));
   iK : Forall (RInv (shd x)) (ths x);
-  iM : sumf phi (ths x) = b2n (closed (shd x))
+  iM : sumf phi (ths x) = b2n (closed (shd x));
+  (* new Close (closed published before d.m is taken): Sends may be in flight while closed is set,
+     but none is once a Recv has passed the barrier / reported end-of-stream, or a Close returned nil *)
+  iN : fix_close c = true -> eof_safe c = true ->
+       (eof_seen (shd x) = true \/ 1 <= cnt rep_eof (ths x)) -> cnt sendstage (ths x) = 0;
+  iO : fix_close c = true -> cnt oldclose (ths x) = 0;
+  iQ : fix_close c = true -> 1 <= sumf nclose (ths x) -> cnt sendstage (ths x) = 0
 }.
 
 (* what any transition does to the monotone part of the shared state *)
@@ -244,12 +257,12 @@ Proof.
 Qed.
 
 Lemma tstep_closed c i ch s t s' t' : tstep c i ch s t = Some (s', t') ->
-  (closed s' = true -> closed s = true \/ (lock_pc (tpc t) = true /\ sendstage (tpc t') = false)) /\
+  (fix_close c = false -> closed s' = true -> closed s = true \/ (lock_pc (tpc t) = true /\ sendstage (tpc t') = false)) /\
   (sendstage (tpc t') = true -> sendstage (tpc t) = true \/ closed s' = false).
 Proof.
   intros H. destruct s as [bf cp cl m cu cc de ar pe se ta eo].
   tcases H; unf; simpl in *; subst; auto.
-  all: try (split; intros; auto; try discriminate; fail).
+  all: try (split; intros; auto; try discriminate; try congruence; fail).
   all: try (destruct k; simpl; split; intros; auto; discriminate).
   all: try (destruct (_ =? 1)%N; simpl; split; intros; auto; discriminate).
 Qed.
@@ -307,7 +320,7 @@ Qed.
 Lemma nclose_app t kr : length (filter is_nilclose (rets t ++ [kr])) = nclose t + b2n (is_nilclose kr).
 Proof. unfold nclose. rewrite filter_app, app_length. simpl. destruct (is_nilclose kr); simpl; lia. Qed.
 
-Lemma tstep_phi c i ch s t s' t' : (sendstage (tpc t) = true -> closed s = false) ->
+Lemma tstep_phi c i ch s t s' t' : (is_cstore (tpc t) = true -> closed s = false) ->
   tstep c i ch s t = Some (s', t') -> phi t' + b2n (closed s) = phi t + b2n (closed s').
 Proof.
   intros Hs H. destruct s as [bf cp cl m cu cc de ar pe se ta eo].
@@ -337,61 +350,167 @@ Proof.
   rewrite taken_by_app. unfold taken_by at 2. simpl. now rewrite Nat.eqb_refl.
 Qed.
 
+Lemma cstore_sendstage p : is_cstore p = true -> sendstage p = true.
+Proof. destruct p; simpl; auto. Qed.
+Lemma cstore_oldclose p : is_cstore p = true -> oldclose p = true.
+Proof. destruct p; simpl; auto. Qed.
+
+(* the old Close program is never entered by the new code *)
+Lemma tstep_oldclose c i ch s t s' t' : fix_close c = true -> tstep c i ch s t = Some (s', t') ->
+  oldclose (tpc t') = true -> oldclose (tpc t) = true.
+Proof.
+  intros Hc H. destruct s as [bf cp cl m cu cc de ar pe se ta eo].
+  tcases H; unf; simpl in *; subst; auto; try congruence.
+  all: try (destruct k; simpl; auto; fail).
+  all: try (destruct (_ =? 1)%N; simpl; auto; fail).
+Qed.
+
+(* where "end of stream is being / has been reported" comes from: only through the barrier *)
+Lemma tstep_eofsrc c i ch s t s' t' : fix_repoll c = true -> fix_barrier c = true ->
+  tstep c i ch s t = Some (s', t') ->
+  (eof_seen s' = true \/ rep_eof (tpc t') = true) ->
+  eof_seen s = true \/ rep_eof (tpc t) = true \/ (tpc t = R_barrier /\ mu s = None).
+Proof.
+  intros Hc Hb H. destruct s as [bf cp cl m cu cc de ar pe se ta eo].
+  tcases H; unf; simpl in *; subst; auto; try congruence.
+  all: try (intros [?|?]; auto; try discriminate; fail).
+  all: try (destruct k; simpl; intros [?|?]; auto; discriminate).
+  all: try (rewrite Hb in *; simpl in *).
+  all: try (intros [?|?]; auto; try discriminate; try congruence; fail).
+  all: try (destruct (_ =? 1)%N eqn:Ev; simpl in *; intros [?|?]; auto; try discriminate; try congruence; fail).
+Qed.
+
+(* a Close returns nil only from its last action; the new code's last action finds d.m free *)
+Lemma tstep_nclose c i ch s t s' t' : tstep c i ch s t = Some (s', t') ->
+  nclose t' = nclose t \/ (tpc t = C2_wait /\ mu s = None) \/ tpc t = C_cancel.
+Proof.
+  intros H. destruct s as [bf cp cl m cu cc de ar pe se ta eo].
+  tcases H; unfold nclose; unf; simpl in *; subst; rewrite ?filter_app, ?app_length; simpl; auto.
+  all: try (destruct k; simpl; auto; fail).
+  all: try (destruct (_ =? 1)%N; simpl; auto; fail).
+  all: try (destruct (is_nilclose _); simpl; auto; fail).
+Qed.
+
+Lemma sumf_ge f l i t : nth_error l i = Some t -> f t <= sumf f l.
+Proof.
+  revert i; induction l as [|y r IH]; intros [|i] H; simpl in *; try discriminate.
+  - inversion H; subst. lia.
+  - specialize (IH i H). lia.
+Qed.
+Lemma sumf_le f g l : (forall t, f t <= g t) -> sumf f l <= sumf g l.
+Proof. intros H. induction l as [|y r IH]; simpl; auto. specialize (H y). lia. Qed.
+
+Lemma sumf_pos_exists f l : 1 <= sumf f l -> exists i t, nth_error l i = Some t /\ 1 <= f t.
+Proof.
+  induction l as [|y r IH]; simpl; [lia|].
+  destruct (f y) eqn:E.
+  - intros H. destruct (IH H) as (i & t & H1 & H2). exists (S i), t. auto.
+  - intros _. exists 0, y. simpl. split; auto. lia.
+Qed.
+
 Lemma inv_th c x i ch t s' t' :
   Inv c x -> nth_error (ths x) i = Some t -> tstep c i ch (shd x) t = Some (s', t') ->
   Inv c (mkSt s' (lupd (ths x) i t')).
 Proof.
   intros I Hn H. destruct x as [s l]. simpl in *.
-  destruct I as [IA IB IC ID IE IF IG IH II IJ IK IM]; simpl in *.
+  destruct I as [IA IB IC ID IE IF IG IH II IJ IK IM IN IO IQ]; simpl in *.
   assert (Ht : TInv s t) by (eapply Forall_nth; eauto).
   pose proof (tstep_mono _ _ _ _ _ _ _ Ht H) as Hm.
   destruct (tstep_shared _ _ _ _ _ _ _ Ht H) as (HA & HB & HE & HF).
   pose proof (tstep_TInv _ _ _ _ _ _ _ IF IE Ht H) as Ht'.
-  pose proof (cnt_lupd lock_pc l i t t' Hn) as CL.
-  pose proof (cnt_lupd sendstage l i t t' Hn) as CS.
-  pose proof (cnt_lupd helper_pc l i t t' Hn) as CH.
-  assert (LK1 : cnt lock_pc l <= 1) by (rewrite IC; destruct (mu s); lia).
-  assert (ID' : closed s' = true -> cnt sendstage (lupd l i t') = 0).
-  { intros Hc'. destruct (tstep_closed _ _ _ _ _ _ _ H) as [H1 H2]. specialize (H1 Hc').
+  assert (LK1 : cnt lock_pc l <= 1) by (rewrite IC; destruct (mu s); clear; lia).
+  (* once closed, an empty send stage stays empty *)
+  assert (SS0 : closed s = true -> cnt sendstage l = 0 -> cnt sendstage (lupd l i t') = 0).
+  { intros Hcl S0. destruct (tstep_closed _ _ _ _ _ _ _ H) as [_ H2].
+    pose proof (cnt_lupd sendstage l i t t' Hn) as CS.
+    pose proof (cnt_zero_all _ _ _ _ S0 Hn) as St. rewrite St in CS.
+    destruct (sendstage (tpc t')) eqn:Et'; simpl in CS; [|clear - CS S0; lia].
+    destruct (H2 eq_refl) as [?|Hc']; [congruence|].
+    destruct Hm as (_ & Hm2 & _). rewrite (Hm2 Hcl) in Hc'. discriminate. }
+  (* a free mutex means nobody is in the send stage *)
+  assert (SL0 : mu s = None -> cnt sendstage l = 0).
+  { intros Em. rewrite Em in IC. pose proof (cnt_sub sendstage lock_pc l sendstage_lock). clear - IC H0. lia. }
+  assert (ID' : fix_close c = false -> closed s' = true -> cnt sendstage (lupd l i t') = 0).
+  { intros Hfc Hc'. destruct (tstep_closed _ _ _ _ _ _ _ H) as [H1 H2]. specialize (H1 Hfc Hc').
     destruct H1 as [H1|[H1 H1']].
-    - pose proof (ID H1) as S0.
-      pose proof (cnt_zero_all _ _ _ _ S0 Hn) as St. rewrite St in CS.
-      destruct (sendstage (tpc t')) eqn:Et'; simpl in CS; [|lia].
-      destruct (H2 eq_refl); congruence.
-    - rewrite H1' in CS. simpl in CS.
-      pose proof (cnt_sub sendstage lock_pc l sendstage_lock).
-      destruct (sendstage (tpc t)) eqn:Est; simpl in CS; [lia|].
-      pose proof (cnt_sub_strict sendstage lock_pc l i t sendstage_lock Hn Est H1). lia. }
+    - apply SS0; auto.
+    - pose proof (cnt_lupd sendstage l i t t' Hn) as CS. rewrite H1' in CS. simpl in CS.
+      pose proof (cnt_sub sendstage lock_pc l sendstage_lock) as CSL.
+      destruct (sendstage (tpc t)) eqn:Est; simpl in CS; [clear - CS CSL LK1; lia|].
+      pose proof (cnt_sub_strict sendstage lock_pc l i t sendstage_lock Hn Est H1) as CSS. clear - CS CSS LK1. lia. }
+  assert (IO' : fix_close c = true -> cnt oldclose (lupd l i t') = 0).
+  { intros Hfc. specialize (IO Hfc). pose proof (cnt_zero_all _ _ _ _ IO Hn) as Ot.
+    pose proof (cnt_lupd oldclose l i t t' Hn) as CO. rewrite Ot in CO.
+    destruct (oldclose (tpc t')) eqn:Eo; simpl in CO; [|clear - CO IO; lia].
+    rewrite (tstep_oldclose _ _ _ _ _ _ _ Hfc H Eo) in Ot. discriminate. }
   assert (IM' : sumf phi (lupd l i t') = b2n (closed s')).
   { pose proof (sumf_lupd phi l i t t' Hn) as SP.
-    assert (Hs : sendstage (tpc t) = true -> closed s = false).
-    { intros Es. destruct (closed s) eqn:Ec; auto.
-      pose proof (cnt_zero_all _ _ _ _ (ID eq_refl) Hn). congruence. }
-    pose proof (tstep_phi _ _ _ _ _ _ _ Hs H). lia. }
+    assert (Hs : is_cstore (tpc t) = true -> closed s = false).
+    { intros Es. destruct (fix_close c) eqn:Efc.
+      - pose proof (cnt_zero_all _ _ _ _ (IO eq_refl) Hn). rewrite (cstore_oldclose _ Es) in H0. discriminate.
+      - destruct (closed s) eqn:Ec; auto.
+        pose proof (cnt_zero_all _ _ _ _ (ID eq_refl eq_refl) Hn). rewrite (cstore_sendstage _ Es) in H0. discriminate. }
+    pose proof (tstep_phi _ _ _ _ _ _ _ Hs H) as TP. clear - TP SP IM. lia. }
   assert (IK' : Forall (RInv s') (lupd l i t')).
   { apply Forall_lupd.
     - eapply Forall_impl; [|exact IK]. intros a Ha. eapply RInv_mono; eauto.
     - pose proof (Forall_nth _ _ _ _ IK Hn) as Hr. apply (RInv_mono _ _ _ Hm) in Hr.
       unfold RInv in *. destruct (tstep_rets _ _ _ _ _ _ _ Ht H) as [E|(kr & E & Hk)]; rewrite E; auto.
       apply Forall_app; split; auto. }
+  assert (IN' : fix_close c = true -> eof_safe c = true ->
+                (eof_seen s' = true \/ 1 <= cnt rep_eof (lupd l i t')) -> cnt sendstage (lupd l i t') = 0).
+  { intros Hfc Hes Hd.
+    assert (Hrb : fix_repoll c = true /\ fix_barrier c = true).
+    { unfold eof_safe in Hes. rewrite Hfc in Hes. simpl in Hes. apply Bool.andb_true_iff in Hes. exact Hes. }
+    destruct Hrb as [Hr Hb].
+    assert (Hold : (eof_seen s = true \/ 1 <= cnt rep_eof l) -> cnt sendstage (lupd l i t') = 0).
+    { intros Ho. apply SS0; [|apply IN; auto].
+      destruct Ho as [Ho|Ho]; [apply (IG Hes Ho)|].
+      destruct (cnt_pos_exists _ _ Ho) as (j & tj & Hj & Hp).
+      pose proof (Forall_nth _ _ _ _ IH Hj) as [Hq _].
+      destruct (tpc tj); simpl in Hp; try discriminate. apply Hq. now apply N.eqb_eq. }
+    assert (Hsrc : eof_seen s' = true \/ rep_eof (tpc t') = true ->
+                   cnt sendstage (lupd l i t') = 0).
+    { intros Hd'. destruct (tstep_eofsrc _ _ _ _ _ _ _ Hr Hb H Hd') as [Ho|[Ho|[Ho Em]]].
+      - apply Hold; auto.
+      - apply Hold. right. eapply cnt_mem; eauto.
+      - apply SS0; auto. destruct Ht as [Hq _]. rewrite Ho in Hq. exact Hq. }
+    destruct Hd as [Hd|Hd]; [apply Hsrc; auto|].
+    destruct (rep_eof (tpc t')) eqn:Er; [apply Hsrc; auto|].
+    apply Hold. right. pose proof (cnt_lupd rep_eof l i t t' Hn) as CR. rewrite Er in CR. simpl in CR. clear - CR Hd. lia. }
+  assert (IQ' : fix_close c = true -> 1 <= sumf nclose (lupd l i t') -> cnt sendstage (lupd l i t') = 0).
+  { intros Hfc Hq. pose proof (sumf_lupd nclose l i t t' Hn) as SN.
+    assert (Hcl1 : 1 <= sumf nclose l -> closed s = true).
+    { intros H1. assert (sumf nclose l <= sumf phi l) by (apply sumf_le; intros a; unfold phi; clear; lia).
+      rewrite IM in H0. destruct (closed s); simpl in *; auto; clear - H0 H1; lia. }
+    destruct (tstep_nclose _ _ _ _ _ _ _ H) as [E|[[E Em]|E]].
+    - assert (1 <= sumf nclose l) by (clear - E SN Hq; lia). apply SS0; auto.
+    - apply SS0; auto. destruct Ht as [Ht1 _]. rewrite E in Ht1. exact Ht1.
+    - pose proof (cnt_zero_all _ _ _ _ (IO Hfc) Hn) as Ot. rewrite E in Ot. discriminate. }
   constructor; simpl; auto.
   - (* iC *)
+    pose proof (cnt_lupd lock_pc l i t t' Hn) as CL.
     destruct (tstep_lock _ _ _ _ _ _ _ H) as [[E1 E2]|[(E1 & E2 & E3 & E4)|(E1 & E2 & E3)]].
-    + rewrite E1, <- IC. rewrite E2 in CL. lia.
-    + rewrite E2. rewrite E1 in IC. rewrite E3, E4 in CL. simpl in CL. lia.
-    + rewrite E1. rewrite E2, E3 in CL. simpl in CL. lia.
+    + rewrite E1, <- IC. rewrite E2 in CL. clear - CL. lia.
+    + rewrite E2. rewrite E1 in IC. rewrite E3, E4 in CL. simpl in CL. clear - CL IC. lia.
+    + rewrite E1. rewrite E2, E3 in CL. simpl in CL. clear - CL LK1. lia.
   - (* iG *)
-    intros Hc He. destruct (tstep_eof _ _ _ _ _ _ _ Hc Ht H He) as [?|[H1 H2]]; auto.
+    intros Hc He.
+    assert (Hrp : fix_repoll c = true) by (unfold eof_safe in Hc; apply Bool.andb_true_iff in Hc; tauto).
+    destruct (tstep_eof _ _ _ _ _ _ _ Hrp Ht H He) as [?|[H1 H2]]; auto.
     destruct (IG Hc H1) as [G1 G2]. split; [apply Hm; auto|].
     destruct (H2 G2) as [?|Hs]; auto.
-    pose proof (cnt_zero_all _ _ _ _ (ID G1) Hn). congruence.
+    destruct (fix_close c) eqn:Efc.
+    + pose proof (cnt_zero_all _ _ _ _ (IN eq_refl Hc (or_introl H1)) Hn). congruence.
+    + pose proof (cnt_zero_all _ _ _ _ (ID eq_refl G1) Hn). congruence.
   - (* iH *)
     apply Forall_lupd; auto.
     eapply Forall_impl; [|exact IH]. intros a Ha. eapply TInv_mono; eauto.
   - (* iI *)
-    intros Hc H1 H2. destruct (tstep_helper _ _ _ _ _ _ _ Hc H H1 H2) as [Hh|(Hh & H3 & H4)].
-    + rewrite Hh in CH. destruct (helper_pc (tpc t)) eqn:Eh; unfold b2n in CH; [pose proof (cnt_mem _ _ _ _ Hn Eh)|]; lia.
-    + specialize (II Hc H3 H4). rewrite Hh in CH. unfold b2n in CH. destruct (helper_pc (tpc t')); lia.
+    intros Hc H1 H2. pose proof (cnt_lupd helper_pc l i t t' Hn) as CH.
+    destruct (tstep_helper _ _ _ _ _ _ _ Hc H H1 H2) as [Hh|(Hh & H3 & H4)].
+    + rewrite Hh in CH. destruct (helper_pc (tpc t)) eqn:Eh; unfold b2n in CH; [pose proof (cnt_mem _ _ _ _ Hn Eh) as CM; clear - CH CM|clear - CH]; lia.
+    + specialize (II Hc H3 H4). rewrite Hh in CH. unfold b2n in CH. destruct (helper_pc (tpc t')); clear - CH II; lia.
   - (* iJ *)
     intros j tj Hj. destruct (Nat.eq_dec i j) as [->|Hne].
     + rewrite (nth_lupd_same _ _ _ _ Hn) in Hj. inversion Hj; subst tj.
@@ -412,11 +531,11 @@ Proof.
     inversion H; subst. eapply inv_th; eauto.
   - destruct x as [s l]. destruct s as [bf cp cl m cu cc de ar pe se ta eo]. simpl in H.
     destruct ar; [|discriminate]. inversion H; subst; clear H.
-    destruct I as [IA IB IC ID IE IF IG IH II IJ IK IM]; simpl in *.
+    destruct I as [IA IB IC ID IE IF IG IH II IJ IK IM IN IO IQ]; simpl in *.
     constructor; simpl; auto.
   - destruct x as [s l]. destruct s as [bf cp cl m cu cc de ar pe se ta eo]. simpl in H.
     destruct pe; [discriminate|]. inversion H; subst; clear H.
-    destruct I as [IA IB IC ID IE IF IG IH II IJ IK IM]; simpl in *.
+    destruct I as [IA IB IC ID IE IF IG IH II IJ IK IM IN IO IQ]; simpl in *.
     assert (Hm : mono (mkS bf cp cl m cu cc de ar (S pe) se ta eo) (mkS bf cp cl m cu true eDE ar pe se ta eo)).
     { unfold mono; simpl; repeat split; auto. intros; discriminate. }
     constructor; simpl; auto; try (intros; discriminate).
@@ -437,6 +556,9 @@ Proof.
   - intros i t Hn. apply nth_error_In in Hn. apply in_map_iff in Hn. destruct Hn as (q & <- & _). reflexivity.
   - clear Hw. induction progs; simpl; constructor; auto. constructor.
   - clear Hw. induction progs; simpl; auto.
+  - intros. apply cnt_init; auto.
+  - intros. apply cnt_init; auto.
+  - intros. apply cnt_init; auto.
 Qed.
 
 Lemma inv_run c x l x' : Inv c x -> run c x l = Some x' -> Inv c x'.
@@ -483,7 +605,7 @@ Qed.
 
 (* ---- data queued before Close is returned before EOF (fixed code) ---- *)
 Theorem data_before_eof c size progs x :
-  fix_repoll c = true -> wf_progs progs = true -> reachable c size progs x ->
+  eof_safe c = true -> wf_progs progs = true -> reachable c size progs x ->
   forall i t, nth_error (ths x) i = Some t -> In (KRecv, RErr eEOF) (rets t) ->
     closed (shd x) = true /\ buf (shd x) = [] /\ sent (shd x) = map snd (taken (shd x)).
 Proof.
@@ -504,14 +626,6 @@ Proof.
   rewrite Forall_forall in Hr'. specialize (Hr' _ Hin). simpl in Hr'. tauto.
 Qed.
 
-Lemma sumf_ge f l i t : nth_error l i = Some t -> f t <= sumf f l.
-Proof.
-  revert i; induction l as [|y r IH]; intros [|i] H; simpl in *; try discriminate.
-  - inversion H; subst. lia.
-  - specialize (IH i H). lia.
-Qed.
-Lemma sumf_le f g l : (forall t, f t <= g t) -> sumf f l <= sumf g l.
-Proof. intros H. induction l as [|y r IH]; simpl; auto. specialize (H y). lia. Qed.
 
 Theorem close_once c size progs x :
   wf_progs progs = true -> reachable c size progs x ->
@@ -532,7 +646,7 @@ Qed.
 
 (* ---- no lost wake-up after Close (fixed code) ---- *)
 Definition never_blocks (p : pc) : bool :=
-  match p with Idle | R_select _ | S_select _ _ => false | _ => true end.
+  match p with Idle | R_select _ | S_select _ _ | R_barrier | C2_wait => false | _ => true end.
 
 Lemma tstep_never_blocks c i ch s t : never_blocks (tpc t) = true -> tstep c i ch s t <> None.
 Proof.
@@ -558,36 +672,87 @@ Qed.
 Lemma helper_never_blocks p : helper_pc p = true -> never_blocks p = true.
 Proof. destruct p; simpl; auto. Qed.
 
-(* Every unfinished thread, once `closed` is set, can step itself, or a thread that is never
-   blocked (the lock holder, or a Close/SetDeadline about to cancel the deadline) can. *)
+(* a thread that is about to cancel the deadline channel exists and can step whenever the queue
+   is closed and the current deadline channel is still open *)
+Lemma helper_enabled c x : Inv c x -> fix_recheck c = true -> closed (shd x) = true ->
+  cur_closed (shd x) = false ->
+  exists k tk, nth_error (ths x) k = Some tk /\ helper_pc (tpc tk) = true /\ enabled c x (Th k false) = true.
+Proof.
+  intros I Hc Hcl Hcc. destruct I.
+  destruct (cnt_pos_exists helper_pc (ths x)) as (j & tj & Hj & Hl); [auto|].
+  exists j, tj. split; [auto|]. split; [auto|].
+  eapply enabled_never_blocks; eauto. now apply helper_never_blocks.
+Qed.
+
+Lemma open_gen s g : g <= cur s -> chan_closed s g = false -> cur_closed s = false.
+Proof.
+  intros Hg Ecc. unfold chan_closed in Ecc. apply Bool.orb_false_iff in Ecc. destruct Ecc as [E1 E2].
+  apply Nat.ltb_ge in E1. assert (g = cur s) by lia. subst g.
+  rewrite Nat.eqb_refl in E2. simpl in E2. exact E2.
+Qed.
+
+(* a Send parked in its blocking select on a closed queue (possible with the new Close only: it
+   was in flight when `closed` was published) can step, or a canceller can *)
+Lemma sselect_progress c x j tj v g : Inv c x -> fix_recheck c = true -> closed (shd x) = true ->
+  nth_error (ths x) j = Some tj -> tpc tj = S_select v g ->
+  enabled c x (Th j false) = true \/
+  exists k tk, nth_error (ths x) k = Some tk /\ helper_pc (tpc tk) = true /\ enabled c x (Th k false) = true.
+Proof.
+  intros I Hc Hcl Hj Hp. rewrite (enabled_th _ _ _ _ _ Hj).
+  pose proof (Forall_nth _ _ _ _ (iH _ _ I) Hj) as [Hg _]. rewrite Hp in Hg.
+  destruct tj as [pg p rs]; simpl in *. subst p. unfold tstep; simpl.
+  destruct (chan_closed (shd x) g) eqn:Ecc; simpl.
+  - left. destruct (Nat.ltb (length (buf (shd x))) (cap (shd x))); simpl; auto.
+  - destruct (Nat.ltb (length (buf (shd x))) (cap (shd x))); simpl; auto.
+    right. apply helper_enabled; auto. eapply open_gen; eauto.
+Qed.
+
+(* the holder of d.m can step, or a canceller can *)
+Lemma holder_progress c x : Inv c x -> fix_recheck c = true -> closed (shd x) = true ->
+  mu (shd x) <> None ->
+  exists j tj, nth_error (ths x) j = Some tj /\
+    (lock_pc (tpc tj) || helper_pc (tpc tj) = true)%bool /\ enabled c x (Th j false) = true.
+Proof.
+  intros I Hc Hcl Hm. pose proof (iC _ _ I) as IC.
+  destruct (mu (shd x)) eqn:Em; [|congruence].
+  destruct (cnt_pos_exists lock_pc (ths x)) as (j & tj & Hj & Hl); [lia|].
+  destruct (never_blocks (tpc tj)) eqn:Enb.
+  - exists j, tj. split; [auto|]. split; [rewrite Hl; auto|]. eapply enabled_never_blocks; eauto.
+  - destruct (tpc tj) eqn:Ep; try discriminate Hl; try discriminate Enb.
+    destruct (sselect_progress c x j tj v g I Hc Hcl Hj Ep) as [He|(k & tk & Hk & Hh & He)].
+    + exists j, tj. split; [auto|]. split; [rewrite Ep; auto|]. exact He.
+    + exists k, tk. split; [auto|]. split; [rewrite Hh; apply Bool.orb_true_r|]. exact He.
+Qed.
+
+(* Every unfinished thread, once `closed` is set, can step itself, or the holder of d.m can, or a
+   thread that is never blocked and about to cancel the deadline (Close/SetDeadline) can. *)
 Theorem no_stuck_after_close c size progs x :
   fix_recheck c = true -> wf_progs progs = true -> reachable c size progs x ->
   closed (shd x) = true ->
   forall i t, nth_error (ths x) i = Some t -> unfinished t = true ->
     enabled c x (Th i false) = true \/
     exists j tj, j <> i /\ nth_error (ths x) j = Some tj /\
-                 never_blocks (tpc tj) = true /\ (lock_pc (tpc tj) || helper_pc (tpc tj) = true)%bool /\
+                 (lock_pc (tpc tj) || helper_pc (tpc tj) = true)%bool /\
                  enabled c x (Th j false) = true.
 Proof.
-  intros Hc Hw Hr Hcl i t Hn Hu. pose proof (inv_reachable _ _ _ _ Hw Hr) as I. destruct I.
+  intros Hc Hw Hr Hcl i t Hn Hu. pose proof (inv_reachable _ _ _ _ Hw Hr) as I.
   destruct (never_blocks (tpc t)) eqn:Enb; [left; eapply enabled_never_blocks; eauto|].
-  pose proof (iD0 Hcl) as S0.
-  assert (Hlock : forall j tj, nth_error (ths x) j = Some tj -> lock_pc (tpc tj) = true -> never_blocks (tpc tj) = true).
-  { intros j tj Hj Hl. pose proof (cnt_zero_all _ _ _ _ S0 Hj) as Hs. destruct (tpc tj); simpl in *; auto; discriminate. }
+  (* waiting for d.m: the holder or a canceller moves *)
+  assert (Hwait : lock_pc (tpc t) = false -> helper_pc (tpc t) = false -> mu (shd x) <> None ->
+    exists j tj, j <> i /\ nth_error (ths x) j = Some tj /\
+                 (lock_pc (tpc tj) || helper_pc (tpc tj) = true)%bool /\ enabled c x (Th j false) = true).
+  { intros Hl Hh Hm. destruct (holder_progress c x I Hc Hcl Hm) as (j & tj & Hj & Hk & He).
+    exists j, tj. split; [|auto].
+    intros ->. rewrite Hn in Hj. inversion Hj; subst tj. rewrite Hl, Hh in Hk. discriminate. }
   rewrite (enabled_th _ _ _ _ _ Hn).
   destruct t as [pg p rs]; simpl in *. destruct p; try discriminate Enb.
-  - (* Idle: waiting for d.m *)
+  - (* Idle *)
     unfold unfinished in Hu; simpl in Hu. destruct pg as [|o pg]; [discriminate|].
     unfold tstep; simpl. destruct o.
     + left. destruct (pop i (shd x)) as [[? ?]|]; auto.
-    + destruct (mu (shd x)) eqn:Em; [right|left; auto].
-      try rewrite Em in iC0. destruct (cnt_pos_exists lock_pc (ths x)) as (j & tj & Hj & Hl); [lia|].
-      exists j, tj. assert (j <> i) by (intros ->; rewrite Hn in Hj; inversion Hj; subst; discriminate).
-      split; [auto|]. split; [auto|]. split; [eauto|]. split; [rewrite Hl; auto|]. eapply enabled_never_blocks; eauto.
-    + destruct (mu (shd x)) eqn:Em; [right|left; auto].
-      try rewrite Em in iC0. destruct (cnt_pos_exists lock_pc (ths x)) as (j & tj & Hj & Hl); [lia|].
-      exists j, tj. assert (j <> i) by (intros ->; rewrite Hn in Hj; inversion Hj; subst; discriminate).
-      split; [auto|]. split; [auto|]. split; [eauto|]. split; [rewrite Hl; auto|]. eapply enabled_never_blocks; eauto.
+    + destruct (mu (shd x)) eqn:Em; [right; apply Hwait; auto; congruence|left; auto].
+    + destruct (fix_close c); [left; destruct (closed (shd x)); auto|].
+      destruct (mu (shd x)) eqn:Em; [right; apply Hwait; auto; congruence|left; auto].
     + left. destruct (closed (shd x)); auto.
     + left. destruct (closed (shd x)); auto.
   - (* R_select g *)
@@ -595,17 +760,75 @@ Proof.
     destruct (chan_closed (shd x) g) eqn:Ecc; simpl.
     + left. destruct (buf (shd x)) eqn:Eb; simpl; auto. unfold pop. rewrite Eb. auto.
     + destruct (pop i (shd x)) as [[? ?]|] eqn:Ep; [left; auto|right].
-      pose proof (Forall_nth _ _ _ _ iH0 Hn) as [Hg _]. simpl in Hg.
-      assert (Hcc : cur_closed (shd x) = false).
-      { unfold chan_closed in Ecc. apply Bool.orb_false_iff in Ecc. destruct Ecc as [E1 E2].
-        apply Nat.ltb_ge in E1. assert (g = cur (shd x)) by lia. subst g.
-        rewrite Nat.eqb_refl in E2. simpl in E2. exact E2. }
-      destruct (cnt_pos_exists helper_pc (ths x)) as (j & tj & Hj & Hl); [auto|].
-      exists j, tj. assert (j <> i) by (intros ->; rewrite Hn in Hj; inversion Hj; subst; discriminate).
-      pose proof (helper_never_blocks _ Hl).
-      split; [auto|]. split; [auto|]. split; [auto|]. split; [rewrite Hl; apply Bool.orb_true_r|]. eapply enabled_never_blocks; eauto.
-  - (* S_select: impossible once closed *)
-    pose proof (cnt_zero_all _ _ _ _ S0 Hn). discriminate.
+      pose proof (Forall_nth _ _ _ _ (iH _ _ I) Hn) as [Hg _]. simpl in Hg.
+      destruct (helper_enabled c x I Hc Hcl (open_gen _ _ Hg Ecc)) as (k & tk & Hk & Hh & He).
+      exists k, tk. split; [|split; [auto|split; [rewrite Hh; apply Bool.orb_true_r|auto]]].
+      intros ->. rewrite Hn in Hk. inversion Hk; subst tk. discriminate.
+  - (* R_barrier: waits for d.m *)
+    unfold tstep; simpl.
+    destruct (mu (shd x)) eqn:Em; [right; apply Hwait; auto; congruence|left; auto].
+  - (* S_select *)
+    destruct (sselect_progress c x i _ v g I Hc Hcl Hn eq_refl) as [He|(k & tk & Hk & Hh & He)].
+    + left. rewrite (enabled_th _ _ _ _ _ Hn) in He. exact He.
+    + right. exists k, tk. split; [|split; [auto|split; [rewrite Hh; apply Bool.orb_true_r|auto]]].
+      intros ->. rewrite Hn in Hk. inversion Hk; subst tk. discriminate.
+  - (* C2_wait: waits for d.m *)
+    unfold tstep; simpl.
+    destruct (mu (shd x)) eqn:Em; [right; apply Hwait; auto; congruence|left; auto].
+Qed.
+
+(* ---- Close is not held up by a Send blocked on a full queue (new Close) ---- *)
+Theorem close_releases_blocked_send c size progs x :
+  fix_close c = true -> fix_recheck c = true -> wf_progs progs = true -> reachable c size progs x ->
+  (* Close never waits before it has published `closed` and cancelled the deadline channel *)
+  (forall i t, nth_error (ths x) i = Some t ->
+     (tpc t = Idle /\ exists r, prog t = OClose :: r) \/ tpc t = C2_cancel ->
+     enabled c x (Th i false) = true) /\
+  (* once `closed` is published a Send parked in its blocking select (holding d.m, queue full or
+     not) can step and return, or a thread that is never blocked is about to cancel its channel *)
+  (closed (shd x) = true -> forall i t v g, nth_error (ths x) i = Some t -> tpc t = S_select v g ->
+     enabled c x (Th i false) = true \/
+     exists k tk, nth_error (ths x) k = Some tk /\ helper_pc (tpc tk) = true /\ enabled c x (Th k false) = true) /\
+  (* a cancelled Send reports a non-nil error unless it enqueued *)
+  (forall i t, nth_error (ths x) i = Some t -> tpc t = S_err -> derr (shd x) <> 0%N).
+Proof.
+  intros Hfc Hc Hw Hr. pose proof (inv_reachable _ _ _ _ Hw Hr) as I. repeat split.
+  - intros i t Hn [[Hp (r & Hpr)]|Hp].
+    + rewrite (enabled_th _ _ _ _ _ Hn). destruct t as [pg p rs]; simpl in *; subst.
+      unfold tstep; simpl. rewrite Hfc. destruct (closed (shd x)); auto.
+    + eapply enabled_never_blocks; eauto. rewrite Hp. reflexivity.
+  - intros Hcl i t v g Hn Hp. eapply sselect_progress; eauto.
+  - intros i t Hn Hp. pose proof (Forall_nth _ _ _ _ (iH _ _ I) Hn) as [Hg _]. rewrite Hp in Hg. exact Hg.
+Qed.
+
+(* nothing is enqueued after a Close has returned nil: no Send is past its `closed` check (so no
+   step can put an item any more), in both versions of Close *)
+Theorem no_enqueue_after_close c size progs x :
+  wf_progs progs = true -> reachable c size progs x -> 1 <= sumf nclose (ths x) ->
+  closed (shd x) = true /\ cnt sendstage (ths x) = 0 /\
+  forall a x', step c x a = Some x' -> sent (shd x') = sent (shd x) /\ 1 <= sumf nclose (ths x').
+Proof.
+  intros Hw Hr Hq. pose proof (inv_reachable _ _ _ _ Hw Hr) as I.
+  assert (Hcl : closed (shd x) = true).
+  { assert (sumf nclose (ths x) <= sumf phi (ths x)) by (apply sumf_le; intros a; unfold phi; lia).
+    rewrite (iM _ _ I) in H. destruct (closed (shd x)); simpl in *; auto; lia. }
+  assert (S0 : cnt sendstage (ths x) = 0).
+  { destruct (fix_close c) eqn:Efc; [apply (iQ _ _ I Efc Hq)|apply (iD _ _ I Efc Hcl)]. }
+  split; [auto|]. split; [auto|].
+  intros a x' Hs. destruct a as [i ch| |]; simpl in Hs.
+  - destruct (nth_error (ths x) i) as [t|] eqn:Hn; [|discriminate].
+    destruct (tstep c i ch (shd x) t) as [[s' t']|] eqn:Ht; [|discriminate].
+    inversion Hs; subst; clear Hs. simpl.
+    pose proof (cnt_zero_all _ _ _ _ S0 Hn) as St.
+    pose proof (sumf_lupd nclose (ths x) i t t' Hn) as SN.
+    assert (Hnc : nclose t <= nclose t' /\ sent s' = sent (shd x)).
+    { clear SN. destruct (shd x) as [bf cp cl m cu cc de ar pe se ta eo].
+      tcases Ht; unfold nclose in *; unf; simpl in *; subst; rewrite ?filter_app, ?app_length; simpl; split; auto; try lia; try discriminate.
+      all: try (destruct k; simpl; auto; fail).
+      all: try (destruct (_ =? 1)%N; simpl; auto; fail). }
+    split; [tauto|lia].
+  - destruct (armed (shd x)); [|discriminate]. inversion Hs; subst; simpl; auto.
+  - destruct (pending (shd x)); [discriminate|]. inversion Hs; subst; simpl; auto.
 Qed.
 
 (* ---- an expired / cancelled deadline releases blocked callers ---- *)
@@ -697,7 +920,7 @@ Proof.
   apply In_nth_error in Hin. destruct Hin as [i Hn].
   destruct (unfinished t) eqn:Hu; auto.
   assert (Hi : i < length (ths x)) by (apply nth_error_Some; congruence).
-  destruct (no_stuck_after_close _ _ _ _ Hc Hw Hr Hcl i t Hn Hu) as [He|(j & tj & _ & Hj & _ & _ & He)].
+  destruct (no_stuck_after_close _ _ _ _ Hc Hw Hr Hcl i t Hn Hu) as [He|(j & tj & _ & Hj & _ & He)].
   - rewrite (terminal_th _ _ _ Ht Hi) in He. discriminate.
   - assert (Hjl : j < length (ths x)) by (apply nth_error_Some; congruence).
     rewrite (terminal_th _ _ _ Ht Hjl) in He. discriminate.
